@@ -634,7 +634,7 @@ func runC12(c *Ctx) {
 					continue
 				}
 				nDead++
-				guards := lexicalGuards(pm, as, fi.Decl.Body)
+				guards := earlyExitGuards(info, pm, as, fi.Decl.Body)
 				g := ""
 				hasOp := func(name string) bool {
 					for _, a := range guards {
